@@ -137,7 +137,13 @@ func buildPred(c *Case) *predCase {
 		if len(it.TParams) > 0 {
 			var sc []predVar
 			for _, tp := range it.TParams {
-				ct := AliasT("constraint")
+				ct := AliasT("constraint") // any: an alias, no default name of its own ("v")
+				switch tp.Constraint {
+				case "stringer", "union", "mixed", "ustring", "ufloat", "ubytes", "cmpunion", "unioncmp":
+					ct = IfaceT(Basic("int")) // an interface literal (also the implicit one around type terms): "ifaceVal"
+				case "comparable":
+					ct = Named(-2, "comparable")
+				}
 				switch {
 				case strings.HasPrefix(tp.Constraint, "pkgnum:"):
 					p, _ := strconv.Atoi(strings.TrimPrefix(tp.Constraint, "pkgnum:"))
@@ -152,6 +158,13 @@ func buildPred(c *Case) *predCase {
 					ct = Named(-1, "LocalC")
 				case tp.Constraint == "localkey":
 					ct = Named(-1, "LocalKey")
+				case tp.Constraint == "srcunion":
+					ct = IfaceEmbed(Named(-1, "LocalQty")) // stands for a constraint that mentions a source-package type
+				case tp.Constraint == "srcapprox":
+					ct = IfaceEmbed(Named(-1, "LocalT"))
+				case strings.HasPrefix(tp.Constraint, "depunion:"):
+					p, _ := strconv.Atoi(strings.TrimPrefix(tp.Constraint, "depunion:"))
+					ct = IfaceEmbed(Named(p, "U"))
 				case tp.Constraint == "markerunion":
 					ct = IfaceEmbed(Named(-1, "LocalMarker")) // a literal that embeds a source-package type
 				}
